@@ -180,6 +180,20 @@ def sampled(rng: random.Random, n: int) -> Iterator[Tuple[str, dict, dict]]:
             yield rng.choice([("pred", {"k": "NotBlank", "pid": 1}, s), ("proc", {"k": "strip", "pid": 7}, s),
                               ("pred", {"k": "MaxLength", "pid": 7, "n": rng.randint(0, 40)}, s),
                               ("proc", {"k": "upper", "pid": 7}, s), ("proc", {"k": "lower", "pid": 7}, s)])
+        elif c < 0.89:
+            # a signalling Decimal NaN among / inside the items (finding D30): `==` signals exactly when Python's
+            # element-by-element comparison reaches it
+            SN = {"t": "decimal", "k": "snan"}
+            leaf = lambda: rng.choice([SN, SN, I(1), B(True), F(False, 1, 0), D(False, 1, 0), S("a"), NONE])
+            def item(depth: int = 0) -> dict:
+                k = rng.choice(["list", "list", "tuple", "dict", "leaf"] if depth < 2 else ["leaf"])
+                if k == "leaf":
+                    return leaf()
+                if k == "dict":
+                    return {"t": "dict", "oid": 0, "kvs": [[S(kk), item(depth + 1)] for kk in rng.sample(["a", "b", "c"], rng.randint(0, 2))]}
+                return {"t": k, "oid": 0, "xs": [item(depth + 1) for _ in range(rng.randint(0, 3))]}
+            xs = [item() for _ in range(rng.randint(2, 5))]
+            yield "pred", {"k": "UniqueItems", "pid": 7}, {"t": rng.choice(["list", "tuple"]), "oid": 0, "xs": xs}
         elif c < 0.93:
             xs = [rng.choice(ATOMS) for _ in range(rng.randint(5, 12))]
             yield "pred", {"k": "UniqueItems", "pid": 7}, {"t": rng.choice(["list", "tuple"]), "oid": 0, "xs": xs}
